@@ -21,6 +21,8 @@ let ent l =
     | Some (a, b) -> Some (n_of_int a, n_of_int b) | None -> None
 let c1 n = let i = int_of_n n - 0x80 in
   if i >= 0 && i < 32 && c1_tbl.(i) >= 0 then Some (n_of_int c1_tbl.(i)) else None
+let use_golden = Array.exists (fun a -> a = "golden") Sys.argv
+let show_cons = ref (Array.exists (fun a -> a = "cons") Sys.argv)
 let cps s = List.map n_of_int (ints (words s))
 let str_of_cps l = match l with [] -> "_" | _ -> String.concat "." (List.map (fun c -> string_of_int (int_of_n c)) l)
 let ostr = function None -> "-" | Some l -> str_of_cps l
@@ -41,7 +43,7 @@ let parse_resp s =
         | _ -> failwith "resp" in
       Some (nm, r)) (String.split_on_char ',' s)
 let tk = function TStartTag -> "s" | TEndTag -> "e" | TShortTag -> "h" | TEmptyTag -> "m"
-let show_token (t, line) =
+let show_token ((t, line), cons) =
   (match t with
    | TDoctype (n, p, s, q) -> Printf.sprintf "D %s %s %s %d" (ostr n) (ostr p) (ostr s) (if q then 1 else 0)
    | TTag (k, name, sc, attrs, dup) ->
@@ -51,6 +53,7 @@ let show_token (t, line) =
    | TChars s -> "S " ^ str_of_cps s
    | TNull -> "0" | TEof -> "E" | TError -> "!"
    | TPi (a, b) -> "P " ^ str_of_cps a ^ " " ^ str_of_cps b) ^ "@" ^ string_of_int (int_of_n line)
+  ^ (if !show_cons then "~" ^ string_of_int (int_of_n cons) else "")
 let show_res = function
   | SContinue -> "C" | SSuspend -> "D" | SScript -> "S" | SEncoding -> "N" | SPanic n -> "PANIC" ^ string_of_int (int_of_n n)
 let lookup_state names s =
@@ -69,17 +72,17 @@ let () =
         let chunks = List.map cps (String.split_on_char ';' chunks) in
         let total = List.fold_left (fun a c -> a + List.length c) 0 chunks + List.length inject * 60 in
         let fuel = nat_of_int (8 * total + 200) in
-        let simd = ((simd_first_guard, simd_tail_stop), simd_tail_newline) in
+        let simd = if use_golden then ((g_simd_first_guard, g_simd_tail_stop), g_simd_tail_newline) else ((simd_first_guard, simd_tail_stop), simd_tail_newline) in
         let (toks, log) =
           if fl = "h" then begin
             let s0 = lookup_state html_state_names (String.trim st) in
-            let m0 = { mc = init_cfg s0 last ex bom; mq = []; mout = [] } in
-            let (m, log) = drive html_flavour html_table simd ent c1 sk fuel inject chunks m0 [] in
+            let m0 = { mc = init_cfg s0 last ex bom; mq = []; mout = []; mcons = N0 } in
+            let (m, log) = drive html_flavour (if use_golden then g_html_table else html_table) simd ent c1 sk fuel inject chunks m0 [] in
             (List.rev m.mout, List.rev log)
           end else begin
             let s0 = lookup_state xml_state_names (String.trim st) in
-            let m0 = { mc = init_cfg s0 last ex bom; mq = []; mout = [] } in
-            let (m, log) = drive xml_flavour xml_table simd ent c1 sk fuel inject chunks m0 [] in
+            let m0 = { mc = init_cfg s0 last ex bom; mq = []; mout = []; mcons = N0 } in
+            let (m, log) = drive xml_flavour (if use_golden then g_xml_table else xml_table) simd ent c1 sk fuel inject chunks m0 [] in
             (List.rev m.mout, List.rev log)
           end in
         print_string (String.concat " ; " (List.map show_token toks));
